@@ -36,8 +36,24 @@ def aggregate_sites(prog, adt):
     return out
 
 
+def _plain(t):
+    """spellings that do not change the value on the paths where they are used: the `?`-payload of `checked_op(..).ok_or_else(..)` is
+    the result of the operation (the path continues only when it did not overflow); an integer cast of a shift amount is the amount
+    (the obligation separately requires the amount itself to be range-checked)"""
+    if not isinstance(t, tuple) or not t:
+        return t
+    t = tuple(_plain(x) if isinstance(x, tuple) else x for x in t)
+    if t[0] == "field" and t[2] == "0" and t[1][0] == "variant" and t[1][2] == "Continue" and t[1][1][0] == "call" and t[1][1][1].endswith("Try>::branch"):
+        inner = t[1][1][2][0]
+        if inner[0] == "call" and inner[1].rsplit("::", 1)[-1] in ("ok_or_else", "ok_or") and inner[2] and inner[2][0][0] == "call" and inner[2][0][1] == "checked":
+            return inner[2][0][2][0]
+    if t[0] == "op" and t[1] in ("Shl", "Shr") and len(t[2]) == 2 and t[2][1][0] == "cast" and t[2][1][1] in ("u32", "u64", "usize"):
+        return mk(t[1], t[2][0], t[2][1][2])
+    return t
+
+
 def site_obligation(ctx, f, bi, B, R, tb):
-    facts = atomic_facts(f, ctx.prog, bi, tb)
+    facts = [(_plain(c), t) for c, t in atomic_facts(f, ctx.prog, bi, tb)]
     lo, hi = int_bounds(facts, B)
     len_ok = has_eq_fact(facts, mk("Shl", const(1), B), ("call", "std::vec::Vec::len", (R,))) or \
         has_eq_fact(facts, mk("Shl", const(1), B), ("call", "len", (R,)))
